@@ -49,3 +49,242 @@ Example C05_nonvacuous_twice :
                                EUserPop 0 true; EKeyFree 0] = Some s /\ quiescent s = true.
 Proof. eexists. split; vm_compute; reflexivity. Qed.
 Print Assumptions C05_nonvacuous_twice.
+
+(* ====================================================================== *)
+(* RUNTIME-LEVEL ROUTES (compio-runtime): CancelToken, the with_cancel /
+   with_personality / fail_fast combinators, Submit's drop, time::timeout.
+   Model: model/CancelTok.v (LTS over future expressions); the programs of the
+   correspondence check (model/RunC05RT.v vs harness/rt/src/bin/c05rt.rs) are
+   runs of that LTS (C05_run_is_lts_run), so everything stated "for all step
+   sequences" below covers them. *)
+From Compio.Model Require Import CancelTok RunC05RT.
+From Compio.Thm Require Import CancelTokThm.
+Local Open Scope nat_scope.
+
+(* with_personality / timeout / any nesting never lose or replace the token (or the
+   personality) coming from outside; only an inner with_cancel (with_personality)
+   replaces it, deliberately: what reaches the operation is the innermost one *)
+Theorem C05_combinators_preserve_token : forall f e,
+  e_tok (leaf_ext e f) = match innermost_tok f with Some t => Some t | None => e_tok e end /\
+  e_pers (leaf_ext e f) = match innermost_pers f with Some p => Some p | None => e_pers e end.
+Proof. intros f e. split; [exact (leaf_ext_tok f e)|exact (leaf_ext_pers f e)]. Qed.
+Print Assumptions C05_combinators_preserve_token.
+
+(* ... and that context is what Submit::poll registers / submits with, whatever the
+   nesting, the listeners, the timers and the answer of the driver *)
+Theorem C05_context_reaches_op : forall f d e short eager i k tl k' tl' r,
+  k_sub k = SIdle -> poll_f f d e short eager i k tl = (k', tl', r) ->
+  k_sub k' <> SIdle -> k_ext k' = leaf_ext e f.
+Proof. exact poll_f_ext. Qed.
+Print Assumptions C05_context_reaches_op.
+
+(* one cancel request on one key (Proactor::cancel_token): the flag is set, the driver is
+   asked exactly when the flag was clear and the operation had not completed, nothing else moves *)
+Theorem C05_cancel_request_effect : forall k,
+  let k' := cancel_by_token k in
+  k_flag k' = true /\
+  k_dc k' = (if negb (k_flag k) && k_infl k then S (k_dc k) else k_dc k) /\
+  k_sub k' = k_sub k /\ k_res k' = k_res k /\ k_ext k' = k_ext k /\ k_live k' = k_live k /\
+  k_infl k' = k_infl k /\ k_reg k' = k_reg k.
+Proof. exact cancel_by_token_spec. Qed.
+Print Assumptions C05_cancel_request_effect.
+
+(* CancelToken::cancel after ANY step sequence: the registered set of t is exactly the
+   not-yet-cancelled operations submitted under t as their innermost token; cancel applies
+   one cancel request to each of them and leaves every other operation (other token, no
+   token, not yet submitted) exactly as it was *)
+Theorem C05_token_exact : forall ntok l t ts,
+  let s := do_steps (sys_init ntok) l in
+  nth_error (toks s) t = Some ts ->
+  let s' := fire t s in
+  (forall i tk, nth_error (tasks s) i = Some tk ->
+     (In i (regs ts) ->
+        fired ts = false /\ innermost_tok (t_exp tk) = Some t /\ k_reg (t_key tk) = true) /\
+     (k_reg (t_key tk) = true -> innermost_tok (t_exp tk) = Some t -> k_flag (t_key tk) = false ->
+        In i (regs ts))) /\
+  (forall i, nth_error (tasks s') i =
+     option_map (fun tk => if negb (fired ts) && existsb (Nat.eqb i) (regs ts)
+                           then set_key (cancel_by_token (t_key tk)) tk else tk)
+                (nth_error (tasks s) i)).
+Proof. exact token_exact. Qed.
+Print Assumptions C05_token_exact.
+
+(* an operation polled for the first time after its token fired is cancelled at
+   registration: one driver cancel on the spot, nothing added to the (cleared) set —
+   unless a notified fail-fast listener above it ends the future before the operation
+   is submitted at all *)
+Theorem C05_token_registered_after_fire : forall ntok l i tk t ts,
+  let s := do_steps (sys_init ntok) l in
+  nth_error (tasks s) i = Some tk -> t_done tk = false -> k_sub (t_key tk) = SIdle ->
+  innermost_tok (t_exp tk) = Some t -> nth_error (toks s) t = Some ts -> fired ts = true ->
+  let s' := poll_task None i s in
+  exists tk', nth_error (tasks s') i = Some tk' /\
+    map (fun x => (fired x, regs x)) (toks s') = map (fun x => (fired x, regs x)) (toks s) /\
+    ((t_out tk' = Some RCancelled /\ k_sub (t_key tk') = SIdle) \/
+     (k_sub (t_key tk') = SSubmitted /\ k_flag (t_key tk') = true /\ k_dc (t_key tk') = 1 /\
+      k_reg (t_key tk') = true /\ e_tok (k_ext (t_key tk')) = Some t)).
+Proof. exact registered_after_fire. Qed.
+Print Assumptions C05_token_registered_after_fire.
+
+(* cancelling twice = cancelling once (any state) ... *)
+Theorem C05_cancel_idempotent : forall t s, fire t (fire t s) = fire t s.
+Proof. exact cancel_idempotent. Qed.
+Print Assumptions C05_cancel_idempotent.
+
+(* ... and a cancel of a token that already fired touches no operation and no registration *)
+Theorem C05_cancel_again_noop : forall t s ts,
+  nth_error (toks s) t = Some ts -> fired ts = true ->
+  tasks (fire t s) = tasks s /\
+  map (fun x => (fired x, regs x)) (toks (fire t s)) = map (fun x => (fired x, regs x)) (toks s) /\
+  s_panic (fire t s) = s_panic s.
+Proof. exact cancel_again_noop. Qed.
+Print Assumptions C05_cancel_again_noop.
+
+(* the future-dropped route: a Submit dropped while Submitted (not yet cancelled, still in
+   flight) issues exactly one driver cancel; dropped while Idle or after Ready, or when a
+   token already cancelled it, or when it has completed, issues none; nobody else is touched *)
+Theorem C05_drop_cancels : forall s i tk,
+  nth_error (tasks s) i = Some tk -> t_done tk = false ->
+  let s' := drop_task i s in
+  let k := t_key tk in
+  (exists tk', nth_error (tasks s') i = Some tk' /\ t_gone tk' = true /\ k_live (t_key tk') = false /\
+     let k' := t_key tk' in
+     (k_sub k = SSubmitted -> k_flag k = false -> k_infl k = true ->
+        k_dc k' = S (k_dc k) /\ k_flag k' = true) /\
+     (k_sub k = SSubmitted -> k_flag k = true \/ k_infl k = false -> k_dc k' = k_dc k) /\
+     (k_sub k <> SSubmitted -> k_dc k' = k_dc k /\ k_flag k' = k_flag k)) /\
+  (forall j, j <> i -> nth_error (tasks s') j = nth_error (tasks s) j) /\
+  map (fun x => (fired x, regs x)) (toks s') = map (fun x => (fired x, regs x)) (toks s).
+Proof. exact drop_cancels. Qed.
+Print Assumptions C05_drop_cancels.
+
+(* over all routes together (token, registration after the fire, drop, fail-fast, timeout,
+   in any order and any number of times) the driver is asked at most once per operation,
+   and never for an operation that was not submitted *)
+Theorem C05_at_most_one_driver_cancel : forall ntok l i tk,
+  nth_error (tasks (do_steps (sys_init ntok) l)) i = Some tk ->
+  k_dc (t_key tk) <= 1 /\ (k_dc (t_key tk) = 1 -> k_flag (t_key tk) = true) /\
+  (k_sub (t_key tk) = SIdle -> k_dc (t_key tk) = 0).
+Proof. exact at_most_one_driver_cancel. Qed.
+Print Assumptions C05_at_most_one_driver_cancel.
+
+(* timeout = drop: when the sleep is ready and the inner future pending, the task reports
+   Elapsed and its operation and every token end up exactly as if the inner future had
+   been polled once and the task then dropped *)
+Theorem C05_timeout_is_drop : forall s i tk dd f eager k1 tl1,
+  nth_error (tasks s) i = Some tk -> t_done tk = false -> t_exp tk = Timeout dd f ->
+  elapsed dd (t_short tk) = true ->
+  poll_f f 1 ext_default (t_short tk) eager i (t_key tk) (toks s) = (k1, tl1, Pending) ->
+  let s' := poll_task eager i s in
+  let s_in := mk_sys (updl (tasks s) i (set_key k1)) tl1 (s_panic s) in
+  let s_dr := drop_task i s_in in
+  (exists tk' tk'', nth_error (tasks s') i = Some tk' /\ nth_error (tasks s_dr) i = Some tk'' /\
+      t_out tk' = Some RElapsed /\ t_key tk' = t_key tk'' /\ t_key tk' = drop_submit k1) /\
+  toks s' = toks s_dr /\
+  (forall j, j <> i -> nth_error (tasks s') j = nth_error (tasks s_dr) j).
+Proof. exact timeout_is_drop. Qed.
+Print Assumptions C05_timeout_is_drop.
+
+(* honest: whatever the nesting, a future reports data only when the driver completed
+   the operation with data (inline at push, or stored in the key) *)
+Theorem C05_no_fabricated_success : forall f d e short eager i k tl k' tl',
+  poll_f f d e short eager i k tl = (k', tl', Ready RData) ->
+  eager = Some KData \/ k_res k = Some KData.
+Proof. exact no_fabricated_success. Qed.
+Print Assumptions C05_no_fabricated_success.
+
+(* Submit is never polled after it handed out its result ("Cannot poll after ready") *)
+Theorem C05_no_poll_after_ready : forall ntok l, s_panic (do_steps (sys_init ntok) l) = false.
+Proof. exact no_poll_after_ready. Qed.
+Print Assumptions C05_no_poll_after_ready.
+
+(* the tie: every program of the correspondence check is executed as a run of the LTS *)
+Theorem C05_run_is_lts_run : forall poll kinds ntok ps,
+  let h := run_prog poll kinds ntok ps in
+  h_sys h = do_steps (sys_init ntok) (h_log h).
+Proof. exact run_is_lts_run. Qed.
+Print Assumptions C05_run_is_lts_run.
+
+(* ---- non-vacuity ------------------------------------------------------- *)
+
+(* four operations: 0 and 1 share token 0 (1 below a personality and a long timeout),
+   2 is under token 1, 3 under none; all submitted; token 0 fires: exactly 0 and 1 get
+   one driver cancel, 2 and 3 are untouched; firing again changes nothing *)
+Definition ex_shared : list step :=
+  [StSpawn (WithCancel 0 Op);
+   StSpawn (Timeout DLong (WithPersonality 1 (WithCancel 0 Op)));
+   StSpawn (WithCancel 1 (WithPersonality 0 Op));
+   StSpawn Op;
+   StPoll 0 None; StPoll 1 None; StPoll 2 None; StPoll 3 None].
+
+Example C05_nonvacuous_token_exact :
+  let s := do_steps (sys_init 2) ex_shared in
+  map regs (toks s) = [[1; 0]; [2]] /\
+  map (fun tk => k_dc (t_key tk)) (tasks (fire 0 s)) = [1; 1; 0; 0] /\
+  map (fun tk => k_flag (t_key tk)) (tasks (fire 0 s)) = [true; true; false; false] /\
+  map regs (toks (fire 0 s)) = [[]; [2]] /\
+  fire 0 (fire 0 s) = fire 0 s.
+Proof. vm_compute. repeat split; reflexivity. Qed.
+Print Assumptions C05_nonvacuous_token_exact.
+
+(* the hypotheses of C05_token_registered_after_fire are met: token 0 fired, then an
+   operation nested three deep under it is polled for the first time *)
+Example C05_nonvacuous_registered_after_fire :
+  let s := do_steps (sys_init 1) [StFire 0; StSpawn (WithPersonality 1 (WithCancel 0 (Timeout DLong Op)))] in
+  let s' := poll_task None 0 s in
+  option_map (fun ts => fired ts) (nth_error (toks s) 0) = Some true /\
+  option_map (fun tk => (k_sub (t_key tk), k_flag (t_key tk), k_dc (t_key tk), k_ext (t_key tk)))
+             (nth_error (tasks s') 0)
+    = Some (SSubmitted, true, 1, mk_ext (Some 1) (Some 0)) /\
+  map regs (toks s') = [[]].
+Proof. vm_compute. repeat split; reflexivity. Qed.
+Print Assumptions C05_nonvacuous_registered_after_fire.
+
+(* both orders of with_personality / with_cancel, an inner with_cancel replacing the outer one *)
+Example C05_nonvacuous_nesting :
+  leaf_ext ext_default (WithCancel 0 (WithPersonality 1 Op)) = mk_ext (Some 1) (Some 0) /\
+  leaf_ext ext_default (WithPersonality 1 (WithCancel 0 Op)) = mk_ext (Some 1) (Some 0) /\
+  leaf_ext ext_default (WithCancel 0 (Timeout DShort (WithPersonality 2 (FailFast 1 (WithPersonality 0 Op)))))
+    = mk_ext (Some 0) (Some 1).
+Proof. vm_compute. repeat split; reflexivity. Qed.
+Print Assumptions C05_nonvacuous_nesting.
+
+(* drop: Submitted -> one driver cancel; Idle -> none; after Ready -> none *)
+Example C05_nonvacuous_drop :
+  let dc l := map (fun tk => k_dc (t_key tk)) (tasks (do_steps (sys_init 1) l)) in
+  dc [StSpawn (WithCancel 0 Op); StPoll 0 None; StDrop 0] = [1] /\
+  dc [StSpawn (WithCancel 0 Op); StDrop 0; StPoll 0 None] = [0] /\
+  dc [StSpawn (WithCancel 0 Op); StPoll 0 None; StComplete 0 KData; StPoll 0 None; StDrop 0] = [0] /\
+  dc [StSpawn (WithCancel 0 Op); StPoll 0 None; StFire 0; StDrop 0; StFire 0] = [1].
+Proof. vm_compute. repeat split; reflexivity. Qed.
+Print Assumptions C05_nonvacuous_drop.
+
+(* timeout: the hypotheses of C05_timeout_is_drop are met and the drop issues the cancel *)
+Example C05_nonvacuous_timeout :
+  let s := do_steps (sys_init 1) [StSpawn (Timeout DShort (WithCancel 0 Op)); StPoll 0 None; StElapse 0] in
+  let s' := poll_task None 0 s in
+  option_map (fun tk => (t_out tk, k_dc (t_key tk), k_live (t_key tk))) (nth_error (tasks s') 0)
+    = Some (Some RElapsed, 1, false) /\
+  option_map (fun tk => k_dc (t_key tk)) (nth_error (tasks s) 0) = Some 0.
+Proof. vm_compute. repeat split; reflexivity. Qed.
+Print Assumptions C05_nonvacuous_timeout.
+
+(* a fail-fast listener created after the fire is not notified, the operation is
+   cancelled at registration instead; a notified one dropped unconsumed hands on *)
+Example C05_nonvacuous_failfast :
+  let out l := map t_out (tasks (do_steps (sys_init 1) l)) in
+  out [StSpawn (FailFast 0 Op); StPoll 0 None; StFire 0; StPoll 0 None] = [Some RCancelled] /\
+  out [StFire 0; StSpawn (FailFast 0 Op); StPoll 0 None; StComplete 0 KCancelled; StPoll 0 None]
+    = [Some (RErr E_CANCELED)] /\
+  out [StSpawn (FailFast 0 Op); StFire 0; StSpawn (FailFast 0 Op); StDrop 0; StPoll 1 None]
+    = [None; Some RCancelled].
+Proof. vm_compute. repeat split; reflexivity. Qed.
+Print Assumptions C05_nonvacuous_failfast.
+
+(* the interpreter on a corpus program (io_uring; token shared by two operations, a
+   neighbour on the same socket that gets its data afterwards) *)
+Example C05_nonvacuous_run :
+  run_c05rt [0; 1; 0; 1; 8;  1;0;1;1;1;0;  1;0;1;1;1;0;  1;0;1;0;  5;  3;0;  5;  2;0;0;  5]%N
+  = [0; 3;  2;2;0;0;  2;2;0;0;  3;1;0;0;  1; 0;  1;1; 1;1; 0;1;  1; 1;1]%N.
+Proof. vm_compute. reflexivity. Qed.
+Print Assumptions C05_nonvacuous_run.
